@@ -105,7 +105,30 @@ var (
 	theProxy  *s3proxy
 )
 
+// perWorldProxy: every world gets its own gofakes3 server and request log (threaded level)
+var perWorldProxy bool
+var l2mu sync.Mutex
+
+func newProxy() *s3proxy {
+	backend := s3mem.New()
+	faker := gofakes3.New(backend)
+	p := &s3proxy{inner: faker.Server(), backend: backend}
+	ts := httptest.NewServer(p)
+	p.url = ts.URL
+	return p
+}
+
+func nextCounter() int {
+	l2mu.Lock()
+	defer l2mu.Unlock()
+	l2counter++
+	return l2counter
+}
+
 func getProxy() *s3proxy {
+	if perWorldProxy {
+		return newProxy()
+	}
 	proxyOnce.Do(func() {
 		backend := s3mem.New()
 		faker := gofakes3.New(backend)
@@ -152,8 +175,7 @@ type l2world struct {
 
 func newL2World(ncols, epn, cache int, native bool) *l2world {
 	px := getProxy()
-	l2counter++
-	w := &l2world{px: px, bucket: fmt.Sprintf("b%d", l2counter), prefix: "pfx", ncols: ncols, epn: epn, cache: cache,
+	w := &l2world{px: px, bucket: fmt.Sprintf("b%d", nextCounter()), prefix: "pfx", ncols: ncols, epn: epn, cache: cache,
 		conns: map[int]*l2conn{}, curWT: map[int]int64{}, nm: newNamer("#"), in: &tw{}, out: &tw{}, ops: &tw{}, native: native}
 	if err := px.backend.CreateBucket(w.bucket); err != nil {
 		panic(err)
@@ -282,11 +304,13 @@ func classifyErr(err error) string {
 		}
 	}
 	s := err.Error()
+	l2mu.Lock()
 	if len(s) > 80 {
 		errSeen[s[:80]]++
 	} else {
 		errSeen[s]++
 	}
+	l2mu.Unlock()
 	switch {
 	case strings.Contains(s, "constraint: key not unique"), strings.Contains(s, "UNIQUE constraint failed"), strings.Contains(s, "PRIMARY KEY"):
 		return "pk"
@@ -394,8 +418,7 @@ func (w *l2world) exec(op *sop, stats map[string]int) bool {
 		out.s(";")
 		out.s("ok")
 	case "create":
-		l2counter++
-		c.table = fmt.Sprintf("t%d", l2counter)
+		c.table = fmt.Sprintf("t%d", nextCounter())
 		c.ro = op.ro
 		opts := ""
 		if op.ro {
@@ -422,7 +445,7 @@ func (w *l2world) exec(op *sop, stats map[string]int) bool {
 		if err == nil {
 			c.created = true
 			if w.native && c.native == "" {
-				c.native = fmt.Sprintf("n%d", l2counter)
+				c.native = fmt.Sprintf("n%d", nextCounter())
 				if _, err := c.db.Exec(fmt.Sprintf("create table %s (%s) without rowid", c.native, w.colDecl())); err != nil {
 					panic(err)
 				}
@@ -644,8 +667,7 @@ func (w *l2world) exec(op *sop, stats map[string]int) bool {
 		o.i(op.c)
 		o.z(op.t)
 	case "changes":
-		l2counter++
-		ch := fmt.Sprintf("ch%d", l2counter)
+		ch := fmt.Sprintf("ch%d", nextCounter())
 		args := fmt.Sprintf("table='%s'", c.table)
 		toJSON := func(canon []string) string {
 			raw := make([]string, 0, len(canon))
@@ -771,8 +793,7 @@ func (w *l2world) exec(op *sop, stats map[string]int) bool {
 			var forder []string
 			if ferr == nil {
 				fdb.SetMaxOpenConns(1)
-				l2counter++
-				ft := fmt.Sprintf("t%d", l2counter)
+				ft := fmt.Sprintf("t%d", nextCounter())
 				opts := "readonly,\n"
 				if w.epn > 0 {
 					opts += fmt.Sprintf("entries_per_node=%d,\n", w.epn)
@@ -1131,6 +1152,80 @@ func runL2History(g *gen, prof l2profile, nops int, stats map[string]int) (strin
 		do(&sop{kind: "sel", c: nconn})
 	}
 	return w.finish()
+}
+
+// runL2T: the threaded level (C19).  Batches of m independent worlds — each with its own
+// connections, tables, bucket and storage proxy — run their statement programs CONCURRENTLY on
+// m goroutines (database/sql pins each connection's statements to OS threads as it likes);
+// every world's outcome is compared with the model run on that world alone.  Built with -race.
+func runL2T(seed int64, n int, dir string) error {
+	perWorldProxy = true
+	cf, err := os.Create(dir + "/cases.txt")
+	if err != nil {
+		return err
+	}
+	defer cf.Close()
+	jf, err := os.Create(dir + "/impl.txt")
+	if err != nil {
+		return err
+	}
+	defer jf.Close()
+	cw, iw := bufio.NewWriter(cf), bufio.NewWriter(jf)
+	defer cw.Flush()
+	defer iw.Flush()
+	total := map[string]int{}
+	const m = 4
+	id := 0
+	for batch := 0; id < n; batch++ {
+		type res struct {
+			in, out string
+			stats   map[string]int
+		}
+		results := make([]res, m)
+		var wg sync.WaitGroup
+		for t := 0; t < m; t++ {
+			wg.Add(1)
+			go func(t int) {
+				defer wg.Done()
+				g := &gen{rand.New(rand.NewSource(seed*1000003 + int64(batch*m+t)))}
+				var prof l2profile
+				switch g.r.Intn(4) {
+				case 0:
+					prof = l2profile{writers: 1, native: true, monotone: true, tx: true, connAttrs: true}
+				case 1:
+					prof = l2profile{writers: 1 + g.r.Intn(2), tx: true, retries: true, connAttrs: true, autoTime: true, fullMask: true}
+				case 2:
+					prof = l2profile{writers: 1 + g.r.Intn(2), vacuum: true}
+				default:
+					prof = l2profile{writers: 2, tx: g.r.Intn(3) == 0, fullMask: true}
+				}
+				st := map[string]int{}
+				in, out := runL2History(g, prof, 8+g.r.Intn(24), st)
+				results[t] = res{in, out, st}
+			}(t)
+		}
+		wg.Wait()
+		for t := 0; t < m && id < n; t++ {
+			id++
+			fmt.Fprintf(cw, "%d sqlhist%s\n", id, results[t].in)
+			fmt.Fprintf(iw, "%d%s\n", id, results[t].out)
+			for k, v := range results[t].stats {
+				total[k] += v
+			}
+			total["hist_threaded"]++
+		}
+	}
+	sf, _ := os.Create(dir + "/stats.txt")
+	defer sf.Close()
+	keys := make([]string, 0, len(total))
+	for k := range total {
+		keys = append(keys, k)
+	}
+	sort.Strings(keys)
+	for _, k := range keys {
+		fmt.Fprintf(sf, "%s %d\n", k, total[k])
+	}
+	return nil
 }
 
 func runL2(seed int64, n int, dir string, profName string) error {
